@@ -331,6 +331,19 @@ func famShutdown(w *World, c *Case, rng *rand.Rand) {
 				t0 := w.VT()
 				stopRet := make(chan time.Duration, 1)
 				go func() { rs.Stop(); stopRet <- w.VT() }()
+				// a second Stop while the first one is still waiting (a deferred Stop plus a signal
+				// handler's): it, too, returns only after every Serve call has returned
+				stop2Ret := make(chan time.Duration, 1)
+				go func() { rs.Stop(); stop2Ret <- w.VT() }()
+				defer func() {
+					select {
+					case t2 := <-stop2Ret:
+						if w.Cfg.Latency > 0 && t2-t0 < 2*w.Cfg.Latency {
+							w.Violate("C10", "stop-returned-before-serve", "a second Stop, called while the first was waiting, returned after %v of virtual time; the tunnels need a round trip of %v to end", t2-t0, 2*w.Cfg.Latency)
+						}
+					default:
+					}
+				}()
 				// an RPC started on the still-registered tunnel while Stop is under way (its
 				// new_stream reaches the tunnel server after Stop half-closed, before the peer hangs up)
 				w.Wait()
